@@ -1095,6 +1095,10 @@ func (m *Machine) rangeIter(x value, t types.Type) iter {
 // ---- channels (single goroutine) ----
 
 func (m *Machine) chanSend(c *Chan, v value) {
+	if m.sched != nil {
+		m.blockOn(&pendingOp{kind: "send", ch: c, val: v})
+		return
+	}
 	if c == nil {
 		panic(abort{"engine", "send on nil channel blocks forever"})
 	}
@@ -1108,6 +1112,13 @@ func (m *Machine) chanSend(c *Chan, v value) {
 }
 
 func (m *Machine) chanRecv(c *Chan, commaOk bool, et types.Type) value {
+	if m.sched != nil {
+		r := m.blockOn(&pendingOp{kind: "recv", ch: c, et: et}).(tuple)
+		if commaOk {
+			return r
+		}
+		return r[0]
+	}
 	if c == nil {
 		panic(abort{"engine", "receive on nil channel blocks forever"})
 	}
@@ -1129,6 +1140,18 @@ func (m *Machine) chanRecv(c *Chan, commaOk bool, et types.Type) value {
 }
 
 func (m *Machine) selectOp(fr *frame, instr *ssa.Select) value {
+	if m.sched != nil {
+		p := &pendingOp{kind: "select", hasDflt: !instr.Blocking}
+		for _, st := range instr.States {
+			c, _ := fr.get(st.Chan).(*Chan)
+			cs := selCase{ch: c, send: st.Dir == types.SendOnly, et: st.Chan.Type().Underlying().(*types.Chan).Elem()}
+			if cs.send {
+				cs.val = fr.get(st.Send)
+			}
+			p.cases = append(p.cases, cs)
+		}
+		return m.blockOn(p)
+	}
 	// single-goroutine semantics: first ready case, else default, else unsupported.
 	chosen := -1
 	var recv value
